@@ -50,7 +50,8 @@ EXPECTED_PROBES = ["two_pass_kernel", "retry_after_alloc_error_pass1", "retry_af
                    "submask_used", "batch_size_1", "batch_nondivisor", "alias_name_used",
                    "upsampling_gt1", "filter_used", "linearity_checked", "recombination_checked",
                    "parallax_zero_aberration", "parallax_defocus_shift", "fractional_aperture_weight",
-                   "parallax_with_rotation", "override_used", "cropped_mask_instance"]
+                   "parallax_with_rotation", "override_used", "cropped_mask_instance", "mask_not_a_disc", "energy_not_300kV",
+                   "anisotropic_scan_sampling", "parallax_limit_on_cropped_instance"]
 
 KERNELS = {"ssb": ["ssb", "single-sideband", "acbf", "aberration-corrected-bright-field"],
            "obf": ["obf", "optimum-bright-field"], "mf": ["mf", "matched-filter"],
@@ -105,7 +106,11 @@ def gen(rng: Rng, tier, i):
     plan = {"scan": [rng.pick([5, 6, 7, 9, 12]), rng.pick([5, 7, 8, 10])], "grid": n, "radius": radius,
             "fill": rng.randrange(10 ** 6), "ab": ab, "rot": rng.pick([0.0, 0.0, 0.3, -1.1]),
             "rs": rng.pick([0.15, 0.2, 0.25]), "cutoff": rng.pick([8.0, 10.0, 12.0, 15.0]),
-            "calls": [], "linearity": None, "analytic": rng.chance(0.4)}
+            "calls": [], "linearity": None, "analytic": rng.chance(0.4),
+            # beam energy, anisotropic scan sampling, masks that are not discs
+            "energy": rng.fork("energy").pick([300e3, 300e3, 300e3, 80e3, 200e3]),
+            "ss": rng.fork("ss").pick([[0.5, 0.5], [0.5, 0.5], [0.5, 0.5], [0.4, 0.7], [1.0, 0.25]]),
+            "mask_kind": rng.fork("mk").pick(["disc", "disc", "disc", "ring", "half", "blobs"])}
     for j in range(rng.pick([3, 4, 6])):
         r = rng.fork(("call", j))
         kern = r.pick(list(KERNELS))
@@ -139,7 +144,22 @@ def _mask(plan):
     n = plan["grid"]
     k = np.fft.fftfreq(n) * n
     kx, ky = np.meshgrid(k, k, indexing="ij")
-    return (kx ** 2 + ky ** 2) <= plan["radius"] ** 2
+    r2 = kx ** 2 + ky ** 2
+    disc = r2 <= plan["radius"] ** 2
+    kind = plan.get("mask_kind", "disc")
+    m = disc
+    if kind == "ring":
+        m = disc & (r2 >= 1.0)                   # central pixel removed
+    elif kind == "half":
+        m = disc & ((kx > 0) | ((kx == 0) & (ky >= 0)))
+    elif kind == "blobs":
+        m = disc & (np.abs(ky) >= 1)             # two separated blobs
+    return m if m.sum() >= 3 else disc
+
+
+def _lam(energy):
+    """Relativistic electron wavelength in Angstrom (independent of the library's helper)."""
+    return 12.2643 / np.sqrt(energy + 0.97845e-6 * energy ** 2)
 
 
 def _stack(plan, nb, salt=0):
@@ -148,12 +168,13 @@ def _stack(plan, nb, salt=0):
 
 
 def _make(plan, vbf, mask, ab=None, rot=None, crop_pad=None):
-    v = _ctx["D3"].from_array(vbf, sampling=(1, 0.5, 0.5), units=("index", "A", "A"))
+    ss = plan.get("ss", [0.5, 0.5])
+    v = _ctx["D3"].from_array(vbf, sampling=(1, ss[0], ss[1]), units=("index", "A", "A"))
     m = _ctx["D2"].from_array(mask, sampling=(plan["rs"], plan["rs"]), units=("A^-1", "A^-1"))
     kw = {"crop_bf_mask": False} if crop_pad is None else {"crop_bf_mask": True,
                                                             "bf_mask_padding_px": crop_pad}
     return _ctx["dp"].DirectPtychography.from_virtual_bfs(
-        v, m, energy=300e3, rotation_angle=plan["rot"] if rot is None else rot,
+        v, m, energy=plan.get("energy", 300e3), rotation_angle=plan["rot"] if rot is None else rot,
         aberration_coefs=dict(plan["ab"] if ab is None else ab), semiangle_cutoff=plan["cutoff"],
         verbose=0, **kw)
 
@@ -190,6 +211,12 @@ def run(plan):
     mask = _mask(plan)
     nb = int(mask.sum())
     vbf = _stack(plan, nb)
+    if plan.get("mask_kind", "disc") != "disc":
+        bump(probes, "mask_not_a_disc")
+    if plan.get("energy", 300e3) != 300e3:
+        bump(probes, "energy_not_300kV")
+    if plan.get("ss", [0.5, 0.5]) != [0.5, 0.5]:
+        bump(probes, "anisotropic_scan_sampling")
     fault.disarm()
     multi = [False]
     try:
@@ -320,9 +347,7 @@ def run(plan):
                 fs = full.corrected_stack.detach().numpy().copy()
                 try:
                     Dc = _make(plan, vbf.copy(), mask, crop_pad=cr["pad"])
-                    if smaller and tuple(Dc.bf_mask.shape) == tuple(mask.shape):
-                        raise HarnessError("crop_bf_mask=True did not crop a croppable mask")
-                    if smaller:
+                    if tuple(Dc.bf_mask.shape) != tuple(mask.shape):
                         bump(probes, "cropped_mask_instance")
                     cs = Dc.reconstruct(max_batch_size=_b(cr["b"], nb), **kw
                                         ).corrected_stack.detach().numpy()
@@ -404,7 +429,9 @@ def run(plan):
             res["steps"] += 3
         # ---- analytic parallax limits (rotation 0)
         if plan.get("analytic"):
-            lam = _ctx["lam"]
+            lam = _lam(plan.get("energy", 300e3))
+            if abs(lam - float(_make(plan, vbf.copy(), mask, ab={}).wavelength)) > 1e-4 * lam:
+                res["obs"]["wavelength_formula_differs"] = 1
             rot_a = float(plan["rot"])
             D0 = _make(plan, vbf.copy(), mask, ab={}, rot=rot_a)
             from quantem.diffractive_imaging.complex_probe import (evaluate_probe, polar_coordinates,
@@ -451,8 +478,8 @@ def run(plan):
                 kx, ky = KX[ii, jj], KY[ii, jj]
                 sx = lam * (C10 * kx + C12 * (kx * np.cos(2 * p12) + ky * np.sin(2 * p12)))
                 sy = lam * (C10 * ky + C12 * (-ky * np.cos(2 * p12) + kx * np.sin(2 * p12)))
-                qx = np.fft.fftfreq(plan["scan"][0], 0.5)
-                qy = np.fft.fftfreq(plan["scan"][1], 0.5)
+                qx = np.fft.fftfreq(plan["scan"][0], plan.get("ss", [0.5, 0.5])[0])
+                qy = np.fft.fftfreq(plan["scan"][1], plan.get("ss", [0.5, 0.5])[1])
                 QX, QY = np.meshgrid(qx, qy, indexing="ij")
                 want = np.zeros(plan["scan"])
                 for q in range(nb):
@@ -464,10 +491,36 @@ def run(plan):
                                       max_batch_size=b).corrected_bf.detach().numpy()
                 bump(probes, "parallax_defocus_shift")
                 e1 = _relerr(got1, want)
-                if not e1 <= 1e-4:
+                # float32 phase ramps: the error grows with the shift measured in scan pixels (a shift
+                # of 20 pixels on a 5-pixel scan is 60 rad of phase at Nyquist); calibrated on HEAD:
+                # <= 1e-4 up to ~5 pixels, 1.3e-4 at 21 pixels
+                ssx, ssy = plan.get("ss", [0.5, 0.5])
+                s_pix = float(max(np.abs(sx).max() / ssx, np.abs(sy).max() / ssy))
+                if s_pix > 5:
+                    bump(probes, "parallax_shift_gt_5_pixels")
+                if not e1 <= 1e-4 * max(1.0, s_pix / 5.0):
                     viol("parallax_shift_limit", f"aberrations {ab}: parallax deviates from the sum "
                          f"of geometrically shifted images by {e1:.3g}",
                          "parallax_shift_limit:" + ("astig" if C12 else "defocus"))
+                # the same statement for an instance built with the library's default mask cropping:
+                # "its detector pixel" is the pixel's true position, whatever border the array carries
+                cr = plan.get("crop")
+                if cr:
+                    ms = np.fft.fftshift(mask)
+                    i2, j2 = np.nonzero(ms)
+                    if min(i2.min(), j2.min()) - cr["pad"] >= 0 and max(i2.max(), j2.max()) + cr[
+                            "pad"] < mask.shape[0]:
+                        bump(probes, "parallax_limit_on_cropped_instance")
+                        D1c = _make(plan, vbf.copy(), mask, rot=rot_a, crop_pad=cr["pad"])
+                        got1c = D1c.reconstruct(deconvolution_kernel="prlx", parallax_flip_phase=False,
+                                                max_batch_size=b).corrected_bf.detach().numpy()
+                        e1c = _relerr(got1c, want)
+                        if not e1c <= 1e-4 * max(1.0, s_pix / 5.0):
+                            viol("parallax_shift_limit", f"aberrations {ab}, instance built with "
+                                 f"crop_bf_mask=True (padding {cr['pad']}, mask {plan.get('mask_kind')} "
+                                 f"{mask.shape} -> {tuple(D1c.bf_mask.shape)}): parallax deviates from the "
+                                 f"sum of geometrically shifted images by {e1c:.3g}",
+                                 "parallax_shift_limit:cropped_mask")
             res["steps"] += 2
     except MemoryError:
         raise HarnessError("injected MemoryError escaped")
